@@ -111,7 +111,15 @@ def work(shard, rec):
         case = {"entries": [repr(e) for e in entries], "mode": mode, "vr": vr, "seed": shard["seed"], "idx": shard["idx"], "li": li}
         rec.ev()
         try:
-            res = lib.make_readable_bulk(list(entries), mode=mode, very_readable=vr)
+            # the documented parameters, by keyword or by position: (pairs, mode, very_readable, save_report)
+            if li % 3 == 1:
+                res = lib.make_readable_bulk(list(entries), mode, vr)
+                rec.count("positional_calls")
+            elif li % 3 == 2:
+                res = lib.make_readable_bulk(list(entries), mode, vr, False)
+                rec.count("positional_calls")
+            else:
+                res = lib.make_readable_bulk(list(entries), mode=mode, very_readable=vr)
         except Exception as e:
             rec.violation(f"make_readable_bulk({entries!r}, mode={mode}, very_readable={vr}) raised {type(e).__name__}: {e}", case)
             continue
